@@ -76,7 +76,7 @@ pub fn run_hung(fixture_base: &[u8], target: &[u8], patch: &[u8]) -> (Vec<String
         let offer = Offer { number: 1, hash: sha256_hex(target), url: "https://cdn.example/patch/1".into(), sig: None };
         let resp = Resp { available: true, patch: Some(offer.clone()), rolled_back: None };
         // queue an event so that the event stage exists: install 1, start, failure
-        runner.exec(&Op::Update { chan: None, resp: Some(resp.clone()), dl: Some(patch.to_vec()) });
+        runner.exec(&Op::Update { chan: None, resp: Some(resp.clone()), dl: Some(patch.to_vec()), evf: 0 });
         runner.exec(&Op::Start);
         runner.exec(&Op::Failure);
         // the update that will hang offers patch 2
@@ -86,7 +86,7 @@ pub fn run_hung(fixture_base: &[u8], target: &[u8], patch: &[u8]) -> (Vec<String
         HANGING.store(false, Ordering::SeqCst);
         HANG_STAGE.store(stage, Ordering::SeqCst);
         let storage = runner.storage();
-        let upd = Op::Update { chan: None, resp: Some(resp2.clone()), dl: Some(patch.to_vec()) };
+        let upd = Op::Update { chan: None, resp: Some(resp2.clone()), dl: Some(patch.to_vec()), evf: 0 };
         let st2 = storage.clone();
         let a = std::thread::spawn(move || {
             ROLE.with(|r| r.set(Some(0)));
@@ -110,7 +110,7 @@ pub fn run_hung(fixture_base: &[u8], target: &[u8], patch: &[u8]) -> (Vec<String
                 ("report_launch_success", Op::Success),
                 ("report_launch_failure", Op::Failure),
                 ("check_for_downloadable_update", Op::Check { chan: None, resp: Some(resp2.clone()) }),
-                ("update_with_result (second update)", Op::Update { chan: None, resp: Some(resp2.clone()), dl: Some(patch.to_vec()) }),
+                ("update_with_result (second update)", Op::Update { chan: None, resp: Some(resp2.clone()), dl: Some(patch.to_vec()), evf: 0 }),
             ];
             for (cname, op) in calls {
                 let st = storage.clone();
